@@ -161,6 +161,9 @@ def check_unescape_j(db, fn):
     sp = Space(); sp.var('more', 2)
     for n in ('c0', 'c1', 'd0', 'd1'): sp.var(n, 256)
     c = word_val(sp, 2, 'c'); d = word_val(sp, 2, 'd')
+    # what is known about the whole matched input in an arbitrary iteration: it holds one escape (5 characters after the first backslash) or several
+    # (11 or more); when another escape follows this one it holds several.  Values computed before the loop can depend on that and on nothing else.
+    multi = sp.var('multi', 2)
     it = Interp(db, sp)
     probs = []
     def in_call(itp, e, ov, av, st):
@@ -168,6 +171,8 @@ def check_unescape_j(db, fn):
         if isinstance(ov, Opaque) and ov.tag == 'ainput':
             if cn == 'begin': return iter([(Ptr('in', 0), st)])
             if cn == 'end': return iter([(Ptr('end', 0), st)])
+            if cn == 'size': return iter([(Val({multi.level: [5, MANY + 11]}), st)])
+            if cn == 'empty': return iter([(Val.const(0), st)])
         return None
     def unhex(itp, e, ov, av, st):
         a, b = av
@@ -192,24 +197,35 @@ def check_unescape_j(db, fn):
             if a.off == 0: return iter([(True, st)])
             if a.off == 6: return itp.split(sp.restrict(0, ((1, 1),)), st)
         raise Unmodelled('comparison of %r %s %r' % (a, op, b))
-    it.intercept.update({'begin': in_call, 'end': in_call, U + 'unhex_string': unhex, U + 'utf8_append_utf32': append})
+    it.intercept.update({'begin': in_call, 'end': in_call, 'size': in_call, 'empty': in_call, U + 'unhex_string': unhex, U + 'utf8_append_utf32': append})
     it.ptr_compare = pcmp
     # loop header: b = in.begin() + 1 ; b < in.end() ; b += 6
-    st = St(sp.full())
+    st = St(sp.DIFF(sp.full(), sp.AND(sp.restrict(0, ((1, 1),)), sp.restrict(multi.level, ((0, 0),)))))       # another escape follows => several escapes
     st.env[fn['params'][0]['id']] = Opaque('ainput'); st.env[fn['params'][1]['id']] = Opaque('string')
-    pre = list(it.run(loop['init'], st))
+    # declarations in front of the loop (hoisted ends, flags): evaluated; other statements there (the assertion on the length) have no value the loop uses
+    starts = [st]
+    for stmt in body['s'][:body['s'].index(loop)]:
+        if stmt.get('k') != 'Decl': continue
+        nxt = []
+        for s0 in starts:
+            for kind, rv, s1 in it.run(stmt, s0):
+                if kind != 'fall': raise Unmodelled('declaration in front of the loop ends with ' + kind)
+                nxt.append(s1)
+        starts = nxt
     bid = loop['init']['decls'][0]['id']
-    b0 = pre[0][2].env[bid]
-    if not (isinstance(b0, Ptr) and b0.base == 'in' and b0.off == 1): probs.append('the loop does not start at the second character of the matched input (b = %r)' % (b0,))
-    st = pre[0][2]; st.env[bid] = Ptr('grp', 0)
     outs = []
-    for kind, rv, s in it.run(loop['body'], st):
-        if kind in ('fall', 'continue'):
-            s2 = list(it.ev(loop['inc'], s))[0][1]
-            outs.append(('next', s2.env[bid].off, [e[1] for e in s2.eff if e[0] == 'emit'], s2.cond))
-        elif kind in ('throw', 'return'):
-            outs.append(('reject', None, [e[1] for e in s.eff if e[0] == 'emit'], s.cond))
-        else: raise Unmodelled('iteration ends with ' + kind)
+    for st0 in starts:
+        pre = list(it.run(loop['init'], st0))
+        b0 = pre[0][2].env[bid]
+        if not (isinstance(b0, Ptr) and b0.base == 'in' and b0.off == 1): probs.append('the loop does not start at the second character of the matched input (b = %r)' % (b0,))
+        st = pre[0][2]; st.env[bid] = Ptr('grp', 0)
+        for kind, rv, s in it.run(loop['body'], st):
+            if kind in ('fall', 'continue'):
+                s2 = list(it.ev(loop['inc'], s))[0][1]
+                outs.append(('next', s2.env[bid].off, [e[1] for e in s2.eff if e[0] == 'emit'], s2.cond))
+            elif kind in ('throw', 'return'):
+                outs.append(('reject', None, [e[1] for e in s.eff if e[0] == 'emit'], s.cond))
+            else: raise Unmodelled('iteration ends with ' + kind)
     inc = c
     pairv = binop('+', binop('*', binop('-', c, Val.const(0xD800)), Val.const(1024)), binop('+', binop('-', d, Val.const(0xDC00)), Val.const(0x10000)))
     more = sp.restrict(0, ((1, 1),))
